@@ -15,6 +15,7 @@ import (
 	"net/http/httptest"
 	"strings"
 	"sync"
+	"sync/atomic"
 	"time"
 
 	"connectrpc.com/vanguard"
@@ -31,7 +32,7 @@ func init() {
 			"the client-form frame k and must have seen a Flush after it; on the request side an instrumented body records which client message each read touches: bytes of message j may only be requested once the handler has obtained " +
 			"messages 0..j-1 (no look-ahead). (2) real HTTP/2 (h2c) strict ping-pong over loopback: client and handler alternate for R rounds, each sending its next message only after receiving the peer's previous one; every round must complete " +
 			"(bounded progress; a stall is confirmed by an isolated re-run). Cases: client forms gRPC, gRPC-Web, Connect streaming x targets Connect streaming, gRPC, gRPC-Web x same/different codec x same/different compression " +
-			"(all four reader/writer adapters) x rounds {1,2,10,100} x sizes {0,1,1 KiB,70 KiB} plus zero-length payloads x handler reading exact sizes or through a 32 KiB buffer x stream shapes (server-stream, client-stream, bidi). non-trivial = at least 2 rounds; distinct by (leg, form, target, codecs, compression, rounds, size, shape)",
+			"(all four reader/writer adapters) x rounds {1,2,10,100} x sizes {0,1,1 KiB,70 KiB} plus zero-length payloads x handler reading exact sizes or through a 32 KiB buffer x stream shapes (server-stream, client-stream, bidi; half of the h2c bidi handlers read and write on separate goroutines, so a Read is pending while they answer). non-trivial = at least 2 rounds; distinct by (leg, form, target, codecs, compression, rounds, size, shape)",
 		Assume: []string{"Connect-unary and REST clients are a control group only: they are not required to stream", "wall-clock is used only as a stall detector (30 s per exchange, confirmed in isolation), never as a latency verdict"},
 		N:      func(t string) int { return tierN(t, 1200, 20000) },
 		Run:    runC16,
@@ -55,6 +56,7 @@ type c16Case struct {
 	unaligned int // > 0: each handler Write also carries this many bytes of the next frame
 	bigReads bool // the handler reads the request body through a 32 KiB buffer instead of exact-size reads
 	shape   int // stServer, stClient, stBidi
+	duplex  bool // bidi over h2c: the handler reads the request on one goroutine and writes the response on another (as grpc-go's ServeHTTP and reverse proxies do), so a Read for message i+1 is pending while response i is written
 	method  *MethodInfo
 	cfg     *SvcConfig
 	reqs    []proto.Message
@@ -62,7 +64,7 @@ type c16Case struct {
 }
 
 func (k *c16Case) String() string {
-	return fmt.Sprintf("%s->%s codec %s->%s comp %q->%v rounds=%d size=%d empty=%v bigreads=%v unaligned=%d shape=%s", k.form, k.target, k.codecC, k.codecS, k.compC, k.compS, k.rounds, k.size, k.empty, k.bigReads, k.unaligned, streamName(k.shape))
+	return fmt.Sprintf("%s->%s codec %s->%s comp %q->%v rounds=%d size=%d empty=%v bigreads=%v unaligned=%d duplex=%v shape=%s", k.form, k.target, k.codecC, k.codecS, k.compC, k.compS, k.rounds, k.size, k.empty, k.bigReads, k.unaligned, k.duplex, streamName(k.shape))
 }
 
 func genC16(r *rand.Rand, h2cLeg bool) *c16Case {
@@ -92,6 +94,7 @@ func genC16(r *rand.Rand, h2cLeg bool) *c16Case {
 	// every fifth scenario sends messages with no field set: a zero-length payload behind the envelope
 	k.empty = k.size == 0 && chance(r, 60)
 	k.bigReads = chance(r, 50)
+	k.duplex = h2cLeg && k.shape == stBidi && chance(r, 50)
 	if chance(r, 25) {
 		k.unaligned = pick(r, []int{1, 3, 5, 7})
 	}
@@ -278,6 +281,33 @@ func (h *c16Handler) ServeHTTP(w http.ResponseWriter, r *http.Request) {
 			writeOne(0)
 		}
 	case stBidi:
+		if k.duplex {
+			got := make(chan bool)
+			go func() {
+				defer close(got)
+				for {
+					ok := readOne() // the next Read is already pending while the writer below answers the previous message
+					got <- ok
+					if !ok {
+						return
+					}
+				}
+			}()
+			for i := 0; i < len(k.resps); i++ {
+				if ok := <-got; !ok {
+					if h.err == nil {
+						h.err = fmt.Errorf("request stream ended after %d messages", len(h.got))
+					}
+					break
+				}
+				if !writeOne(i) {
+					break
+				}
+			}
+			for range got { // the reader ends with the request stream
+			}
+			break
+		}
 		for i := 0; i < len(k.resps); i++ {
 			if !readOne() {
 				if h.err == nil {
@@ -434,6 +464,8 @@ func c16InMemory(c *Ctx, i int, r *rand.Rand) {
 }
 
 // ---- leg 2: real HTTP/2 --------------------------------------------------------------
+
+var c16ConfirmedStalls int32
 
 var (
 	c16Mu      sync.Mutex
@@ -681,7 +713,11 @@ func c16H2C(c *Ctx, i int, r *rand.Rand) {
 		k.reqs, k.resps = k.reqs[:minInt(10, len(k.reqs))], k.resps[:minInt(10, len(k.resps))]
 	}
 	id := fmt.Sprintf("x%d-%d", i, r.Uint64())
-	out := c16Exchange(k, id, 30*time.Second)
+	budget := 30 * time.Second
+	if atomic.LoadInt32(&c16ConfirmedStalls) >= 2 {
+		budget = 5 * time.Second // the run has failed already; do not spend two minutes on every further stall
+	}
+	out := c16Exchange(k, id, budget)
 	c.Eval()
 	c.Count("h2c-exchanges")
 	c.CountN("h2c-rounds", int64(out.rounds))
@@ -694,9 +730,16 @@ func c16H2C(c *Ctx, i int, r *rand.Rand) {
 	if out.err == nil && out.rounds == k.rounds {
 		return
 	}
+	if out.stalled && atomic.LoadInt32(&c16ConfirmedStalls) >= 2 {
+		c.Violate(i, fmt.Sprintf("ping-pong-stalled/%s->%s/%s", k.form, k.target, streamName(k.shape)), fmt.Sprintf("%s\n%d rounds, %v (not re-run alone: two stalls were confirmed in isolation earlier in this run)", k, out.rounds, out.err))
+		return
+	}
 	if out.stalled {
 		// confirm in isolation with a longer budget before calling it a deadlock
 		again := c16Exchange(k, id+"-retry", 90*time.Second)
+		if !(again.err == nil && again.rounds == k.rounds) {
+			atomic.AddInt32(&c16ConfirmedStalls, 1)
+		}
 		if again.err == nil && again.rounds == k.rounds {
 			c.Inconclusive(fmt.Sprintf("h2c exchange %s stalled once (%v) but completed when re-run alone", k, out.err))
 			return
